@@ -295,6 +295,16 @@ func init() {
 	})
 	o.Aux = []string{"json/create/textAndAlignment.json"}
 
+	// the library's own file copy (pkg/pdfcpu/io.go): same staging machinery, same-file short cut for aliases
+	single("copyfile", small, func(e *Env) error {
+		out := e.Out
+		if out == "" {
+			out = e.In[0]
+		}
+		_, err := pdfcpu.CopyFile(e.In[0], out, true)
+		return err
+	})
+
 	// ---- CLI layer with the input on stdin: the pkg/cli stream plumbing (spooled input, createStreamOutput, finalizer)
 	stdin := func(name string, inputs []string, run func(e *Env) error) {
 		o := &Op{Name: name, Family: "single", Inputs: inputs, Rels: []string{RelNew, RelExisting, RelExisting0}}
